@@ -383,7 +383,7 @@ theorem dmStepH_stab (np n : Nat) (d : Det) (s s' : RunState) (op : COp) (hwf : 
     · next hq =>
       injection hs with hs; rw [← hs, if_pos hq, if_neg hwf]
       simp only [hstate]
-      rw [ctrlG_eq _ _ _ hq.1 hwf,
+      rw [ctrlG_eq _ _ _ hq.1 hq.2 hwf,
         show ctrlQ s.t.n (qIndex np c) (qIndex np t) sigmaX = gateMat s.t.n (Gate.CNOT (qIndex np c) (qIndex np t)) from rfl,
         hgate (Gate.CNOT (qIndex np c) (qIndex np t)) ⟨hq.1, hq.2, hwf⟩]
       rfl
@@ -395,7 +395,7 @@ theorem dmStepH_stab (np n : Nat) (d : Det) (s s' : RunState) (op : COp) (hwf : 
     · next hq =>
       injection hs with hs; rw [← hs, if_pos hq, if_neg hwf]
       simp only [hstate]
-      rw [ctrlG_eq _ _ _ hq.1 hwf,
+      rw [ctrlG_eq _ _ _ hq.1 hq.2 hwf,
         show ctrlQ s.t.n (qIndex np c) (qIndex np t) sigmaZ = gateMat s.t.n (Gate.CZ (qIndex np c) (qIndex np t)) from rfl,
         hgate (Gate.CZ (qIndex np c) (qIndex np t)) ⟨hq.1, hq.2, hwf⟩]
       rfl
